@@ -200,3 +200,99 @@ def tasks(tier, seed=0):
         ts += [("readonly_task", dict(kind="linear", kw=dict(features=["a", "b"], source_dimension=0))), ("set_order_task", dict(kind="linear", kw=kw)),
                ("set_order_task", dict(kind="joint", kw=dict(features=["a", "b"], source_dimension=1, nb_events=1)))]
     return ts
+
+
+def logging_rng_task():
+    """Logging must not consume randomness: during a real (tiny, 3-iteration) seeded fit with every logging action enabled, the global RNG states of torch,
+    numpy and random are compared bit for bit before and after each call of the output manager (the environment is observed, nothing is sampled)."""
+    task = "logging-consumes-no-randomness"
+
+    def body():
+        import random
+        import shutil
+        import tempfile
+
+        import pandas as pd
+        import matplotlib
+
+        matplotlib.use("Agg")
+        from leaspy.algo import AlgorithmSettings
+        from leaspy.algo.fit.fit_output_manager import FitOutputManager
+        from leaspy.io.data import Data
+        from leaspy.models import LogisticModel
+
+        rec = Recorder(PROP, task, [FitOutputManager.iteration, FitOutputManager.save_plot_patient_reconstructions, FitOutputManager.save_plot_convergence_model_parameters, FitOutputManager.save_model_parameters_convergence])
+        tmp = tempfile.mkdtemp(prefix="verif_c11_")
+        changed = []
+        try:
+            rng = np.random.default_rng(0)
+            rows = [(f"s{i}", 60.0 + 2 * j + i, float(np.clip(0.2 + 0.06 * j + 0.01 * i + 0.01 * rng.standard_normal(), 0.01, 0.99)), float(np.clip(0.3 + 0.04 * j + 0.01 * rng.standard_normal(), 0.01, 0.99))) for i in range(8) for j in range(3)]
+            data = Data.from_dataframe(pd.DataFrame(rows, columns=["ID", "TIME", "a", "b"]))
+            settings = AlgorithmSettings("mcmc_saem", n_iter=3, seed=0, progress_bar=False)
+            settings.set_logs(path=tmp, print_periodicity=1, save_periodicity=1, plot_periodicity=1, plot_patient_periodicity=1, overwrite_logs_folder=True)
+            orig = FitOutputManager.iteration
+            calls = []
+
+            def watched(self, algo, model, dataset):
+                before = (torch.get_rng_state().clone(), np.random.get_state()[1].copy(), random.getstate())
+                orig(self, algo, model, dataset)
+                after = (torch.get_rng_state(), np.random.get_state()[1], random.getstate())
+                calls.append(algo.current_iteration)
+                if not torch.equal(before[0], after[0]):
+                    changed.append(("torch", algo.current_iteration))
+                if not np.array_equal(before[1], after[1]):
+                    changed.append(("numpy", algo.current_iteration))
+                if before[2] != after[2]:
+                    changed.append(("random", algo.current_iteration))
+
+            FitOutputManager.iteration = watched
+            import io
+            import contextlib as _cl
+
+            try:
+                with _cl.redirect_stdout(io.StringIO()):
+                    LogisticModel("logistic", source_dimension=1).fit(data, algorithm_settings=settings)
+            finally:
+                FitOutputManager.iteration = orig
+        finally:
+            shutil.rmtree(tmp, ignore_errors=True)
+        rec.obligations += 1
+        if not changed and len(calls) == 3:
+            rec.discharged += 1
+        else:
+            rec.violation_from_script("rng-state", "C11:logging-consumes-randomness", _rng_replay(), what=f"a logging action changed a global RNG state: {changed[:3]} (calls {calls})")
+        rec.sample({"fit": "8 subjects x 3 visits, 3 iterations, all logging actions every iteration", "rng_states_compared": ["torch", "numpy", "random"], "calls": calls})
+        return rec.result()
+
+    return guarded(PROP, task, body)
+
+
+def _rng_replay():
+    return """
+import random, shutil, tempfile, io, contextlib, numpy as np, pandas as pd, matplotlib
+matplotlib.use('Agg')
+from leaspy.algo import AlgorithmSettings
+from leaspy.io.data import Data
+from leaspy.models import LogisticModel
+rng = np.random.default_rng(0)
+rows = [(f's{i}', 60.0 + 2 * j + i, float(np.clip(0.2 + 0.06 * j + 0.01 * i + 0.01 * rng.standard_normal(), 0.01, 0.99)), float(np.clip(0.3 + 0.04 * j + 0.01 * rng.standard_normal(), 0.01, 0.99))) for i in range(8) for j in range(3)]
+data = Data.from_dataframe(pd.DataFrame(rows, columns=['ID', 'TIME', 'a', 'b']))
+def fit(logs):
+    s = AlgorithmSettings('mcmc_saem', n_iter=3, seed=0, progress_bar=False)
+    tmp = tempfile.mkdtemp(prefix='verif_c11_')
+    if logs: s.set_logs(path=tmp, print_periodicity=1, save_periodicity=1, plot_periodicity=1, plot_patient_periodicity=1, overwrite_logs_folder=True)
+    m = LogisticModel('logistic', source_dimension=1)
+    with contextlib.redirect_stdout(io.StringIO()): m.fit(data, algorithm_settings=s)
+    shutil.rmtree(tmp, ignore_errors=True)
+    return {k: v.clone() for k, v in m.parameters.items()}
+a, b = fit(False), fit(True)
+bad = [k for k in a if not torch.equal(a[k], b[k])]
+print('parameters that differ between the seeded fit without and with logging:', bad); sys.exit(1 if bad else 0)
+"""
+
+
+_tasks_c11 = tasks
+
+
+def tasks(tier, seed=0):
+    return _tasks_c11(tier, seed) + [("logging_rng_task", {})]
